@@ -9,7 +9,7 @@ import sys
 
 pid = sys.argv[1]
 tier = sys.argv[2] if len(sys.argv) > 2 else "quick"
-root = "/verif/seeded"
+root = os.path.join(os.path.dirname(os.path.dirname(os.path.abspath(__file__))), "seeded")
 VERIF = os.environ.get("SEED_VERIF", "/verif")   # a scratch clone of /verif may be used while other work builds against /repo
 REPO = os.environ.get("SEED_REPO", "/repo")
 rows = []
@@ -32,7 +32,8 @@ for d in sorted(os.listdir(root), key=lambda s: (s.split("-")[0], int(s.split("-
             viol = [l for l in c.stdout.splitlines() if l.startswith("VIOLATION")]
             broken = [l.strip() for l in c.stdout.splitlines() if "proof obligation broken" in l]
             concrete = [v for v in viol if not v.rstrip().endswith("no-failing-input-found")]
-            res = ("DETECTED (concrete failing input)" if concrete else "DETECTED (broken obligation, no failing input found)" if viol else "MISSED")
+            crashed = [v for v in viol if "internal error of the check" in v or "check could not run" in v]
+            res = ("CHECK ERROR (the check itself failed; not counted as detection)" if crashed and len(crashed) == len(viol) else "DETECTED (concrete failing input)" if [v for v in concrete if v not in crashed] else "DETECTED (broken obligation, no failing input found)" if viol else "MISSED")
             rows.append((d, f"exit {c.returncode}: {res}", viol[:2]))
             out = {"check": f"python3 tools/seedtest.py seeded/{d}/patch.diff {pid} {tier}", "exit": c.returncode, "result": res,
                    "violation_lines": [v[:400] for v in viol[:4]], "broken_obligations": broken[:4]}
